@@ -38,7 +38,9 @@ LEVEL_TEXT = (
     "loop: axis insertion/removal equals the specification for every rank-preserving network; one epoch's batches are "
     "disjoint, without replacement, cover floor(n/b)*b samples, keys paired (given jax.random.permutation is a "
     "permutation); any number of epochs is a closed-form function of (key,n,b,mode,t); evaluation order; "
-    "checkpoint manager: any save sequence, restore = latest, missing handled as documented; resume offset."
+    "checkpoint manager: any save sequence, restore = latest, missing handled as documented; resume offset; trainer "
+    "bookkeeping: any chain of runs executes every step exactly once (any targets, any max_to_keep), which batch each step "
+    "consumes, number of evaluation batches in closed form, repeated train(), no restore with variables0 / without checkpointing."
 )
 LEVEL_NOTE = (
     "partial: network numerics, msgpack/orbax serialisation and the file system are contracts (atomic save, "
@@ -62,7 +64,9 @@ RULE = (
     "iter: every (n<=N, 0<=b<=n+1, train|eval) + random larger sizes, t = 2*floor(n/b)+2 next-calls; non-trivial when "
     "at least one epoch boundary is crossed (floor(n/b)>=1), distinct by (n,b,mode,key kind). flaxmap: (network, "
     "input shape); non-trivial when an axis is added (rank 2/3) or the network changes the shape. ckpt: random "
-    "save/restore sequences, distinct by the op list; non-trivial when >=2 saves. train: (n,b,epochs,spc) chains. "
+    "save/restore sequences, distinct by the op list; non-trivial when >=2 saves (+ other max_to_keep values through the scico "
+    "code path). train: (n,b,epochs,spc) chains. session: named trainer configurations (resume+log+second train(), variables0, "
+    "no checkpointing, zero periods, batch>n, defaults), every step's delivered rows observed. "
     "vars: random trees, non-trivial when both collections are present."
 )
 ASSUMPTIONS = [
@@ -70,6 +74,7 @@ ASSUMPTIONS = [
     "flax.serialization.msgpack_restore(msgpack_serialize(t)) == t for variable trees (hypothesis of C20_variables_roundtrip; exercised)",
     "orbax CheckpointManager.save/restore of one step is atomic and returns the saved tree; steps not larger than the latest are skipped (modelled, exercised)",
     "the network (model.apply) is an arbitrary function of the canonical array; its numerics are not modelled",
+    "prepare_data / prefetch_to_device deliver the iterator's batches unchanged and in order on one device (exercised by the session stream)",
 ]
 
 KNOWN_EMPTY = "ckpt-restore-empty-dir"
@@ -664,7 +669,7 @@ def _session_impl(conf_extra, n, n_test, b, ep, wd, prev_dir_exists, variables0,
         runs = []
         dvar = None
         for _ in range(2 if again else 1):
-            rec = {"steps": [], "rows": [], "pair": True, "logged": [], "eval_rows": [], "ckpt": []}
+            rec = {"steps": [], "rows": [], "pair": True, "logged": [], "eval_rows": [], "ckpt": [], "epochs": []}
             o_train, o_eval, o_upd, o_ck = tr.p_train_step, tr.p_eval_step, tr.update_metrics, tr.checkpoint
 
             def w_train(state, batch, rec=rec, o=o_train):
@@ -689,12 +694,21 @@ def _session_impl(conf_extra, n, n_test, b, ep, wd, prev_dir_exists, variables0,
                 return o(state)
 
             tr.p_train_step, tr.p_eval_step, tr.update_metrics, tr.checkpoint = w_train, w_eval, w_upd, w_ck
+            o_ins = getattr(tr, "itstat_insert_func", None)
+            if o_ins is not None:
+                def w_ins(a, rec=rec, o=o_ins):
+                    rec["epochs"].append(int(a.epoch))  # the epoch number reported for a logged step
+                    return o(a)
+
+                tr.itstat_insert_func = w_ins
             try:
                 dvar, _ = tr.train()
             except Exception as e:  # noqa: BLE001
                 rec["err"] = common.err_kind(e)
             finally:
                 tr.p_train_step, tr.p_eval_step, tr.update_metrics, tr.checkpoint = o_train, o_eval, o_upd, o_ck
+                if o_ins is not None:
+                    tr.itstat_insert_func = o_ins
             rec["dir"] = _listing(wd)
             runs.append(rec)
             if "err" in rec:
@@ -748,6 +762,9 @@ def _session_case(ctx, model, name, n, n_test, b, ep, extra, pre=None, vars0=Fal
             evs = mo["events"]
             a = {"offset": impl["offset"], "steps": r["steps"], "logged": r["logged"], "ckpt": r["ckpt"], "dir": r["dir"],
                  "eval_batches": len(r["eval_rows"])}
+            if extra.get("log") and r["epochs"] != [e[3] for e in evs if e[2]]:
+                ctx.disagree("flax.session.epoch", {**case, "train_call": which}, r["epochs"], [e[3] for e in evs if e[2]])
+                return
             ck = [e[0] + 1 for e in evs if e[4]] + [max(mo["offset"], m["N"])]
             mm = {"offset": mo["offset"], "steps": [e[0] for e in evs], "logged": [e[0] for e in evs if e[2]],
                   "ckpt": ck, "dir": mo["dir"], "eval_batches": mo["eval_batches"]}
